@@ -1,2 +1,51 @@
-/-! C02 — placeholder; theorems follow. -/
-theorem C02_placeholder : True := trivial
+import SSProps.C01
+/-!
+# C02 — contexts of a running frame: where the value stack is trimmed
+
+For a frame that is executing, `stacktop` is not valid; `inspect_frame` trims the stack at the depth of the first
+table entry covering `f_lasti` (0 if none).  Proved: that depth is the one the interpreter itself would pop the
+stack to if an exception were raised at that instruction (`C02_first_cover`), so everything below it is live;
+the innermost block of the walk has exactly that level, so its slot is the last one of the trimmed stack
+(`C02_innermost_level`, `C02_innermost_slot_in_range`); without a covering entry nothing is read
+(`C02_no_handler_empty`).
+
+NOT proved: that the levels of the *outer* with-handlers on the chain are below the trim depth, and that the
+position of a running frame rests where the matcher of `currently_exiting_context` expects — compiler facts,
+measured by harness/props/c02.py with probes in the body and in every manager method.
+-/
+open SS.ExcTable
+
+theorem C02_first_cover (hs : List View) (hd : Disjoint hs) (lasti : Nat) :
+    firstCover hs lasti = ((lookup hs lasti).map (·.depth)).getD 0 :=
+  firstCover_eq_lookup hs hd lasti
+
+theorem C02_no_handler_empty (hs : List View) (hd : Disjoint hs) (lasti : Nat) (h : lookup hs lasti = none) :
+    firstCover hs lasti = 0 ∧ walk hs lasti = some [] := by
+  refine ⟨by rw [C02_first_cover hs hd, h]; rfl, ?_⟩
+  rw [walk, walkGo_eq_chainGo hs hd]
+  simp [chainGo, h]
+
+/-- The innermost block (last of the outside-in list) sits exactly at the trim depth. -/
+theorem C02_innermost_level (hs : List View) (hd : Disjoint hs) (lasti : Nat) (blocks : List Block)
+    (h : walk hs lasti = some blocks) (hne : blocks ≠ []) :
+    (blocks.getLast hne).level = firstCover hs lasti := by
+  rw [walk, walkGo_eq_chainGo hs hd] at h
+  rw [C02_first_cover hs hd]
+  simp only [chainGo] at h
+  cases hl : lookup hs lasti with
+  | none => rw [hl] at h; cases h; exact absurd rfl hne
+  | some v =>
+    rw [hl] at h
+    obtain ⟨pre, hp⟩ := chainGo_suffix hs _ _ _ _ h
+    subst hp
+    simp
+
+/-- Hence the slot it names (`stack[level - 1]`) is inside a stack trimmed to `firstCover` slots. -/
+theorem C02_innermost_slot_in_range {α : Type} (hs : List View) (hd : Disjoint hs) (lasti : Nat) (blocks : List Block)
+    (h : walk hs lasti = some blocks) (hne : blocks ≠ []) (stack : List α) (hlen : stack.length = firstCover hs lasti)
+    (hpos : 0 < (blocks.getLast hne).level) :
+    (stack[(blocks.getLast hne).level - 1]?).isSome := by
+  have := C02_innermost_level hs hd lasti blocks h hne
+  rw [List.getElem?_eq_getElem (by omega)]; rfl
+
+example : firstCover (parseTable C01.exTable) 12 = 2 := by decide
